@@ -4,7 +4,10 @@ from ..sched import *
 
 def check(ctx):
     for name in NAMES:
-        for_paths(ctx, ctx.repo, name, lambda A, R, tr: check_grid(A, R, prefix=tr))
+        def per(A, R, tr, name=name):
+            check_grid(A, R, prefix=tr)
+            if name != "new_ltf_plan": check_bmin_guard(A, R, prefix=tr)
+        for_paths(ctx, ctx.repo, name, per)
     check_lpsd_wrapper(ctx, ctx.repo)
     check_rounding_helper(ctx, ctx.repo)
     ctx.trust("E5/E6 loop summarisation (entry symbols for loop-carried values)", "library model rows (np.round, np.clip, np.select, np.searchsorted, masked stores)")
